@@ -22,6 +22,8 @@ HARNESSES = [
     dict(name="bufw-dbg", src=["bufw.c"], variant="asan-dbg", tiers=["thorough"], args=["--dbg"], deadline={"quick": 70, "thorough": 400}),
     dict(name="cur-dbg", src=["cur.c"], variant="asan-dbg", tiers=["thorough"], deadline={"quick": 60, "thorough": 300}),
     dict(name="filerd-dbg", src=["filerd.c"], variant="asan-dbg", tiers=["thorough"], ldflags=_WRAP, deadline={"quick": 60, "thorough": 300}),
+    # free-running ThreadSanitizer twin: two threads, each with objects of its own (harness/common/twin.c; samples, decides nothing)
+    dict(name="own-objects-tsan", src=["../common/twin.c"], variant="tsan", cflags=["-DTWIN_C01", "-DVSX_FREE_RUNS=6"], deadline={"quick": 60, "thorough": 120}),
 ]
 
 ASSUMPTIONS = [
